@@ -517,9 +517,13 @@ class node_from_row_assumed:
     modifies = []
 
 
+def _is_dd_select(ev) -> bool:
+    return ev.kind == "sql" and sqlfront.match_key(ev.sql).startswith(sqlfront.match_key(DD_SELECT))
+
+
 def _dd_rows_facts(row, args):
     c = cur()
-    ev = [e for e in c.trace if e.kind == "sql" and e.norm.startswith(sqlfront.normalize(DD_SELECT))]
+    ev = [e for e in c.trace if _is_dd_select(e)]
     return trusted.where_holds(ev[-1].sql, (), dict(i=row[0], kind=row[1], label=row[2], detached=sym.wrap_int(
         tm.Ite(ev[-1].db.fact(f"selected.detached.q{ev[-1].ordinal}", row[0], versioned=False), tm.mk_int(1), tm.mk_int(0)))))
 
@@ -534,7 +538,7 @@ def _dd_delete_guard(e, trace):
     if lp is None:
         return False
     row = lp.current
-    sel = [ev for ev in trace if ev.kind == "sql" and ev.norm.startswith(sqlfront.normalize(DD_SELECT))]
+    sel = [ev for ev in trace if _is_dd_select(ev)]
     if not sel:
         return False
     def same_node(n):
@@ -547,17 +551,39 @@ def _dd_delete_guard(e, trace):
     return wrap_bool(tm.And(tm.Eq(I(e.args[0]), I(row[0])), was_detached, tm.mk_bool(bool(before))))
 
 
+_DD_NO_PRODUCT = (r"SELECT 1 FROM node (?:AS )?(?P<a>\w+) WHERE (?:node \. i = (?P=a) \. creator|(?P=a) \. creator = node \. i)")
+_DD_NO_SINK = (r"SELECT 1 FROM dependency WHERE (?:node \. i = dependency \. source|dependency \. source = node \. i)",
+               r"SELECT 1 FROM dependency (?:AS )?(?P<a>\w+) WHERE (?:node \. i = (?P=a) \. source|(?P=a) \. source = node \. i)")
+
+
 def _dd_select_shape(e):
-    """The selecting predicate: detached, no product, no sink (three conjuncts, two NOT EXISTS)."""
-    if not e.norm.startswith(sqlfront.normalize(DD_SELECT)):
+    """The selecting predicate: detached, no product, no sink (three conjuncts in any order, two NOT EXISTS; the
+    alias of the inner table is free, but must not capture the outer `node`)."""
+    import re
+
+    if not _is_dd_select(e):
         return True
     w = sqlfront.where_of(e.sql)
     cj = sqlfront.conjuncts(w)
-    txt = [sqlfront.normalize(sqlfront.show(x[1][1])) if x[0] == "not" and x[1][0] == "exists" else None for x in cj]
-    ok = (len(cj) == 3 and cj[0] == ("col", None, "detached")
-          and txt[1] == "SELECT 1 FROM node AS cnode WHERE node . i = cnode . creator"
-          and txt[2] == "SELECT 1 FROM dependency WHERE node . i = dependency . source")
-    return ok
+    if len(cj) != 3:
+        return False
+    subs = [sqlfront.normalize(sqlfront.show(x[1][1])) for x in cj if x[0] == "not" and x[1][0] == "exists"]
+    plain = [x for x in cj if not (x[0] == "not" and x[1][0] == "exists")]
+    if len(subs) != 2 or plain != [("col", None, "detached")] and plain != [("col", "node", "detached")]:
+        return False
+
+    def is_no_product(t):
+        m = re.fullmatch(_DD_NO_PRODUCT, t, re.I)
+        return m is not None and m.group("a").lower() != "node"
+
+    def is_no_sink(t):
+        for pat in _DD_NO_SINK:
+            m = re.fullmatch(pat, t, re.I)
+            if m is not None and m.groupdict().get("a", "x").lower() != "node":
+                return True
+        return False
+
+    return (is_no_product(subs[0]) and is_no_sink(subs[1])) or (is_no_product(subs[1]) and is_no_sink(subs[0]))
 
 
 class _TrellisStub:
